@@ -188,6 +188,52 @@ Proof.
   rewrite (lex_name x Hx), (parse_string_lead e rs W R), Hk. reflexivity.
 Qed.
 
+(* ---------- the lines of a block ---------- *)
+(* the body of an expressions block, one assignment per line: comment lines (first character that is not white space is
+   "#") and blank lines are skipped, every other line is an assignment *)
+Definition is_comment_line (s : string) : bool :=
+  match skip_space s with String c _ => (code c =? hash)%N | EmptyString => false end.
+Definition is_blank_line (s : string) : bool :=
+  match skip_space s with EmptyString => true | _ => false end.
+Definition skipped (s : string) : bool := is_comment_line s || is_blank_line s.
+
+Fixpoint parse_block (ls : list string) : option (list (string * expr * option string)) :=
+  match ls with
+  | [] => Some []
+  | l :: r =>
+      if skipped l then parse_block r
+      else match parse_line l, parse_block r with
+           | Some a, Some b => Some (a :: b)
+           | _, _ => None
+           end
+  end.
+
+(* comment lines and blank lines are inert wherever they stand in the block and whatever the comment says *)
+Theorem skipped_lines_are_inert ls1 c ls2 : skipped c = true -> parse_block (ls1 ++ c :: ls2) = parse_block (ls1 ++ ls2).
+Proof.
+  intros Hc. induction ls1 as [|l r IH]; cbn [List.app parse_block].
+  - rewrite Hc. reflexivity.
+  - rewrite IH. reflexivity.
+Qed.
+
+Lemma comment_line_skipped lead c : all_chars is_space lead = true -> skipped (lead ++ String "#" c) = true.
+Proof.
+  intros H. unfold skipped, is_comment_line. rewrite (skip_space_all lead (String "#" c) H). reflexivity.
+Qed.
+
+Corollary comment_lines_are_inert ls1 lead c ls2 : all_chars is_space lead = true ->
+  parse_block (ls1 ++ (lead ++ String "#" c) :: ls2) = parse_block (ls1 ++ ls2).
+Proof. intros H. apply skipped_lines_are_inert. apply comment_line_skipped. exact H. Qed.
+
+(* removing every skipped line at once *)
+Theorem parse_block_filter ls : parse_block ls = parse_block (filter (fun l => negb (skipped l)) ls).
+Proof.
+  induction ls as [|l r IH]; [reflexivity|]. cbn [parse_block filter].
+  destruct (skipped l) eqn:E; cbn [negb].
+  - exact IH.
+  - cbn [parse_block]. rewrite E, IH. reflexivity.
+Qed.
+
 (* ---------- examples (computed) ---------- *)
 Example line_examples :
   parse_line "i_K = g_K*(V - E_K)  # uA/cm**2"
@@ -198,3 +244,9 @@ Example line_examples :
   /\ parse_line "a b = 1" = None
   /\ write_line "dV_dt" (ENeg (EVar "i_K")) (Some " note") = Some "dV_dt = - ( i_K ) # note".
 Proof. vm_compute. repeat split; reflexivity. Qed.
+
+Example block_example :
+  parse_block ["  # the potassium current"; "i_K = g_K*(V - E_K)"; ""; "#"; "dV_dt = -i_K # mV/ms"; "   "]
+  = Some [("i_K", EMul (EVar "g_K") (ESub (EVar "V") (EVar "E_K")), None); ("dV_dt", ENeg (EVar "i_K"), Some " mV/ms")].
+Proof. vm_compute. reflexivity. Qed.
+
